@@ -2,8 +2,9 @@ CONSTANTS
   MaxFeatures = 2
   PairPaths <- PairPathsCore
   Plan <- PlanThorough
-  Dev_StopDropsDynamic = TRUE
+  Dev_StopDropsDynamic = FALSE
   Dev_ExcRebuiltFromStr = TRUE
+  Dev_CtorFailureRaises = FALSE
 SPECIFICATION Spec
 INVARIANT Inv_WellFormed
 INVARIANT Inv_IdentityKF
